@@ -36,6 +36,7 @@ type exp struct {
 	kids []exp
 	keys []string // map keys / struct field names (Go names)
 	why  string
+	src  *rb.JV // seq: the JavaScript value the sequence is built from
 }
 
 func worst(a, b mode) mode {
@@ -197,7 +198,8 @@ func denote(t string, v rb.JV, num numberOf) exp {
 		if n := rb.ArrayLen(t); n >= 0 && n != len(el) {
 			return exp{m: mustFail, why: fmt.Sprintf("%d elements denote no %s", len(el), t)}
 		}
-		e := exp{m: mustOK, kind: "seq"}
+		vv := v
+		e := exp{m: mustOK, kind: "seq", src: &vv}
 		for _, x := range el {
 			k := denote(et, x, num)
 			e.m = worst(e.m, k.m)
@@ -320,6 +322,9 @@ func denoteStruct(t string, v rb.JV, num numberOf) exp {
 		dup := false
 		for q := range e.keys {
 			if e.keys[q] == fmt.Sprint(idx) {
+				if e.kids[q].m != mustOK {
+					unknown = true // the overridden property may already have made the call fail
+				}
 				e.kids[q] = k
 				dup = true
 			}
@@ -450,4 +455,90 @@ func parseIdx(s string) []int {
 		out = append(out, n)
 	}
 	return out
+}
+
+// notPlainArray: array-like values convertCallParameter fills with zeros
+// instead of converting element-wise (only own data properties of real Arrays
+// are read): Arguments objects, {length:n,...}, functions, String objects,
+// arrays with holes or accessor elements.
+func notPlainArray(v rb.JV) bool {
+	switch v.K {
+	case "args", "arraylike", "getterarr", "func", "boxstr":
+		return true
+	case "arr":
+		for _, e := range v.E {
+			if e.K == "hole" {
+				return true
+			}
+		}
+	}
+	return false
+}
+
+// zeroFilled recognises the known deviation "elements of an array-like / holes /
+// accessor elements arrive as the zero value": it reports whether got contains,
+// at a position built from such a value, zero values exactly where otto's
+// convertCallParameter leaves them unset.
+func zeroFilled(e exp, got reflect.Value) bool {
+	if !got.IsValid() {
+		return false
+	}
+	for got.Kind() == reflect.Interface && !got.IsNil() {
+		got = got.Elem()
+	}
+	switch e.kind {
+	case "seq":
+		if got.Kind() != reflect.Slice && got.Kind() != reflect.Array || got.Len() != len(e.kids) {
+			return false
+		}
+		if e.src != nil && notPlainArray(*e.src) {
+			hit := false
+			for i := range e.kids {
+				z := true
+				switch e.src.K {
+				case "arr":
+					z = e.src.E[i].K == "hole"
+				case "getterarr":
+					z = i == 0
+				}
+				if z {
+					if !got.Index(i).IsZero() {
+						return false
+					}
+					hit = true
+				}
+			}
+			if hit {
+				return true
+			}
+		}
+		for i, k := range e.kids {
+			if zeroFilled(k, got.Index(i)) {
+				return true
+			}
+		}
+	case "map":
+		if got.Kind() != reflect.Map {
+			return false
+		}
+		for i, key := range e.keys {
+			if mv := got.MapIndex(reflect.ValueOf(key)); mv.IsValid() && zeroFilled(e.kids[i], mv) {
+				return true
+			}
+		}
+	case "ptr":
+		if got.Kind() == reflect.Ptr && !got.IsNil() {
+			return zeroFilled(e.kids[0], got.Elem())
+		}
+	case "struct":
+		if got.Kind() != reflect.Struct {
+			return false
+		}
+		for i, key := range e.keys {
+			if zeroFilled(e.kids[i], got.FieldByIndex(parseIdx(key))) {
+				return true
+			}
+		}
+	}
+	return false
 }
